@@ -197,9 +197,10 @@ pub struct Env {
     pub born_in_op: Vec<u64>,
     pub watchdog_tripped: bool,
     /// set while a sink fault is armed: fail the w-th write call
-    pub sink_fail_at: Option<u32>,
-    pub sink_writes: u32,
-    pub sink_fail_fired: bool,
+    /// set while an element-formatter fault is armed: the j-th payload Debug/Display call returns Err
+    pub fmt_elem_fail_at: Option<u32>,
+    pub fmt_elem_calls: u32,
+    pub fmt_elem_failed: bool,
 }
 
 impl Env {
@@ -232,9 +233,9 @@ impl Env {
             trace: 0xcbf2_9ce4_8422_2325,
             born_in_op: Vec::new(),
             watchdog_tripped: false,
-            sink_fail_at: None,
-            sink_writes: 0,
-            sink_fail_fired: false,
+            fmt_elem_fail_at: None,
+            fmt_elem_calls: 0,
+            fmt_elem_failed: false,
         }
     }
 
@@ -615,4 +616,38 @@ pub fn finish_drop() {
     if let Some((watch, seq)) = PENDING_PANIC.with(|c| c.take()) {
         raise(watch, seq);
     }
+}
+
+/// Arms (or disarms) the element-formatter fault for the rendering about to run.
+pub fn arm_fmt_elem(fail_at: Option<u32>) {
+    with(|e| {
+        e.fmt_elem_fail_at = fail_at;
+        e.fmt_elem_calls = 0;
+        e.fmt_elem_failed = false;
+    });
+}
+
+/// Did the armed element-formatter fault fire? (also disarms it)
+pub fn take_fmt_elem_failed() -> bool {
+    with(|e| {
+        e.fmt_elem_fail_at = None;
+        std::mem::take(&mut e.fmt_elem_failed)
+    })
+}
+
+/// Called by every payload `Debug`/`Display`: true when this call has to return `Err`.
+pub fn fmt_elem_fails() -> bool {
+    with(|e| {
+        if e.mode != Mode::Op || e.fmt_elem_fail_at.is_none() {
+            return false;
+        }
+        e.fmt_elem_calls += 1;
+        if e.fmt_elem_fail_at == Some(e.fmt_elem_calls) {
+            e.fmt_elem_failed = true;
+            e.th(0xFE11);
+            true
+        } else {
+            false
+        }
+    })
 }
